@@ -360,3 +360,126 @@ def env_family(seed, n, maxlen=3, budget=6000):
         trim_to_budget(d, budget)
         out.append(d)
     return out
+
+
+# ---------------------------------------------------------------- choices (C07) and adjacent groups (C19)
+def branch(*leaves):
+    return {"kind": "branch", "fields": list(leaves)}
+
+
+def altf(id, wrap, *branches):
+    return {"kind": "alt", "id": id, "arity": wrap, "branches": list(branches), "help": "", "hidden": False,
+            "guard": False, "catch": False}
+
+
+def posm(id, vt="str"):
+    return {"kind": "pos", "id": id, "vt": vt, "arity": "one", "strict": "any", "help": f"HELP-{id}"}
+
+
+def adjf(id, wrap, head, *members):
+    return {"kind": "adj", "id": id, "arity": wrap, "head": head, "members": list(members), "help": "",
+            "hidden": False, "guard": False, "catch": False}
+
+
+BRANCH_POOL = [
+    lambda i: branch(rf(f"b{i}", "one", f"--flag{i}")),
+    lambda i: branch(rf(f"b{i}", "one", f"-{'pqrs'[i]}")),
+    lambda i: branch(ar(f"b{i}", "one", "int", f"--num{i}")),
+    lambda i: branch(ar(f"b{i}", "one", "str", f"-{'pqrs'[i]}", f"--str{i}")),
+    lambda i: branch(ar(f"b{i}", "one", "str", f"--key{i}"), ar(f"c{i}", "opt", "int", f"--opt{i}")),
+    lambda i: branch(rf(f"b{i}", "one", f"--on{i}"), sw(f"c{i}", f"--extra{i}")),
+    lambda i: branch(ar(f"b{i}", "one", "int", f"--lo{i}"), ar(f"c{i}", "one", "int", f"--hi{i}")),
+]
+
+
+def alt_family(seed, n, maxlen=4, budget=8000):
+    rnd = random.Random(seed)
+    out = []
+    wraps = ["one", "opt", "many", "some"]
+    while len(out) < n:
+        nb = rnd.choice([2, 2, 3, 3, 4])
+        picks = [rnd.randrange(len(BRANCH_POOL)) for _ in range(nb)]
+        branches = [BRANCH_POOL[p](i) for i, p in enumerate(picks)]
+        g = altf("g0", wraps[len(out) % 4], *branches)
+        others = []
+        r = rnd.random()
+        if r < 0.35:
+            others = [sw("o1", "-v")]
+        elif r < 0.55:
+            others = [ar("o1", "many", "str", "-m")]
+        fields = others + [g] if rnd.random() < 0.5 else [g] + others
+        tail = rnd.choice([NOTAIL, NOTAIL, postail(pos("p0", "many")), postail(pos("p0", "opt"))])
+        d = mkdef(f"alt{seed}_{len(out)}", level(fields, tail), maxlen=maxlen, extras=rnd.choice([("unk",), ("dd",), ()]),
+                  spells=rnd.choice([("sep",), ("eq",)]), words=rnd.choice([("1",), ("1", "x")]))
+        galpha_trim(d, budget)
+        out.append(d)
+    return out
+
+
+def adj_family(seed, n, maxlen=5, budget=8000):
+    rnd = random.Random(seed)
+    out = []
+    wraps = ["one", "opt", "many"]
+    while len(out) < n:
+        shape = len(out) % 3
+        wrap = wraps[(len(out) // 3) % 3]
+        if shape == 0:
+            g = adjf("g0", wrap, rf("h0", "one", "--point"), posm("x", rnd.choice(["int", "str"])), posm("y", "str"))
+        elif shape == 1:
+            g = adjf("g0", wrap, rf("h0", "one", "--rect"), ar("w", "one", "int", "--ww"), ar("h", "one", "str", "--hh"),
+                     sw("q", "--sq"))
+        else:
+            g = adjf("g0", wrap, rf("h0", "one", "-P"), posm("x", "str"), posm("y", "int"), posm("z", "str"))
+        others = []
+        r = rnd.random()
+        if r < 0.4:
+            others = [sw("o1", "-v")]
+        elif r < 0.7:
+            others = [sw("o1", "-v"), ar("o2", "opt", "str", "-o")]
+        fields = others + [g] if rnd.random() < 0.6 else [g] + others
+        tail = rnd.choice([NOTAIL, postail(pos("p0", "many"))])
+        d = mkdef(f"adj{seed}_{len(out)}", level(fields, tail), maxlen=maxlen, extras=rnd.choice([("unk",), ("dd",), ("help",), ()]),
+                  spells=rnd.choice([("sep",), ("eq",)]), words=rnd.choice([("1",), ("1", "x")]))
+        galpha_trim(d, budget)
+        out.append(d)
+    return out
+
+
+def field_leaves(f):
+    if f["kind"] in ("switch", "reqflag", "arg"):
+        return [f]
+    if f["kind"] == "alt":
+        return [l for b in f["branches"] for l in b["fields"]]
+    return [f["head"]] + [m for m in f["members"] if m["kind"] != "pos"]
+
+
+def galphabet_size(d):
+    a = d["alpha"]
+    n = len(a["extras"]) + len(a["words"])
+    for f in d["named"]:
+        for it in field_leaves(f):
+            names = it["shorts"] + it["longs"]
+            if it["kind"] != "arg":
+                n += len(names)
+            else:
+                if "sep" in a["spells"]:
+                    n += len(names)
+                if "eq" in a["spells"]:
+                    n += len(names) * len(a["eqvals"])
+                if "glued" in a["spells"]:
+                    n += len(it["shorts"]) * len(a["eqvals"])
+    return n
+
+
+def galpha_trim(d, budget):
+    a = d["alpha"]
+    def est():
+        k = galphabet_size(d)
+        return sum(k ** i for i in range(a["maxlen"] + 1))
+    if est() > budget and len(a["words"]) > 1:
+        a["words"] = a["words"][:1]; a["eqvals"] = a["eqvals"][:1]
+    if est() > budget and a["extras"]:
+        a["extras"] = []
+    while est() > budget and a["maxlen"] > 2:
+        a["maxlen"] -= 1
+    return d
